@@ -6,8 +6,14 @@ ID = "C17"
 LEVEL = "proof"
 LEAN_MODULES = ["DracoProps.C17"]
 RULE = ("exhaustive 8/16-bit varints (quick: all 8-bit, seeded slice of 16-bit); boundary-biased random 32/64-bit; "
-        "decoder on random/garbage bytes; a case is non-trivial when it is a distinct op line")
-THEOREM_BACKED = "varint (all widths)"
+        "varint decoder on random/garbage bytes; binary coders (rANS bit, adaptive rANS bit, direct, folded over both, "
+        "buffer bit mode with and without stored size): random op sequences (single bits and 1..32-bit groups, biases "
+        "0, 0.002, 0.1, 0.5, 0.97, 0.9995, 1, lengths 0..4000 quick / 0..20000 thorough): encoder bytes model == "
+        "implementation, real encode->decode round trip evaluated on the implementation (values and consumed bytes), "
+        "decoders on trailing bytes / over-reads / truncations / bit flips / garbage under ASan+UBSan compared with the "
+        "model; a case is non-trivial when it is a distinct op line")
+THEOREM_BACKED = ("varint_roundtrip, zigzag_roundtrip, scalar_roundtrip, bits_roundtrip, fastdiv_correct (generated table), "
+                  "rabs_roundtrip, ransBit/adaptive/direct/folded/symbolBit_roundtrip, getBit_past_end, direct_past_end")
 CORRESPONDENCE_ONLY = ""
 EXPLANATION = "Lean theorems about the executable model of the primitives + byte-exact correspondence with the real classes"
 
@@ -21,7 +27,126 @@ def _rt_oracle(v):
     return f
 
 
+KINDS = ["rans", "adapt", "direct", "folded", "foldedadapt", "bits0", "bits1"]
+
+
+def rand_ops(rng, n, bias, mode, minbits):
+    ops = []
+    for _ in range(n):
+        m = rng.randrange(2) if mode == 2 else mode
+        if m == 0:
+            ops.append(("b", 1, 1 if rng.random() < bias else 0))
+        else:
+            k = rng.randrange(8)
+            nb = 32 if k == 0 else (max(minbits, 1) if k == 1 and minbits else (0 if k == 1 else rng.randint(minbits, 32)))
+            v = 0
+            for i in range(32):
+                v |= (1 if rng.random() < bias else 0) << i
+            if rng.random() < 0.5 and nb < 32:
+                v &= (1 << nb) - 1
+            ops.append(("l", nb, v))
+    return ops
+
+
+def ops_str(ops):
+    return ",".join(f"b{v}" if t == "b" else f"l{nb}:{v}" for t, nb, v in ops) or "-"
+
+
+def reqs_str(ops):
+    return ",".join("b" if t == "b" else f"l{nb}" for t, nb, v in ops) or "-"
+
+
+def rt_oracle(kind, ops):
+    want = [str(v & ((1 << nb) - 1)) if nb < 32 else str(v) for t, nb, v in ops]
+
+    def f(hout, case):
+        t = hout.split()
+        if len(t) != 2 or t[1] == "F":
+            return ("bitcoder-roundtrip", f"{kind}: round trip failed ({hout[:80]}) for `{case.op[:200]}`")
+        enc_len = int(t[0])
+        pos, vals = t[1].split(":", 1)
+        vals = vals.split(",") if vals else []
+        if kind.startswith("bits"):
+            vals = vals[1:]     # first value is the stored size
+        if vals != want:
+            bad = next((i for i, (a, b) in enumerate(zip(vals, want)) if a != b), min(len(vals), len(want)))
+            return ("bitcoder-roundtrip", f"{kind}: decoded value {bad} is {vals[bad] if bad < len(vals) else None}, written {want[bad] if bad < len(want) else None} for `{case.op[:200]}`")
+        return None
+    return f
+
+
 def generate(rng, tier):
+    cases = []
+    thorough = tier == "thorough"
+    biases = [0.0, 0.002, 0.1, 0.5, 0.97, 0.9995, 1.0]
+    lens = [0, 1, 2, 3, 7, 31, 32, 33, 64, 65, 100, 257, 1000] + ([4096, 20000] if thorough else [3000])
+    ncoder = 140 if thorough else 36
+    for c in range(ncoder):
+        bias = biases[c % 7]
+        n = lens[(c // 7 + c) % len(lens)] if c < 105 else rng.randrange(3000)
+        mode = c % 3
+        if mode != 0:
+            n = min(n, 5000)
+        for kind in KINDS:
+            bitmode = kind.startswith("bits")
+            ops = rand_ops(rng, min(n, 3000) if bitmode else n, bias, 1 if bitmode else mode, 0 if bitmode else 1)
+            o = ops_str(ops)
+            trail = gen.rand_bytes(rng, rng.choice((0, 3, 5)))
+            cases.append(Case(f"bc_enc {kind} {o}", tags=(f"bc_enc_{kind}",), nontrivial=n > 0))
+            cases.append(Case(f"bc_rt {kind} {o} {gen.hexs(trail)}", oracle=rt_oracle(kind, ops), flavour="asan",
+                              tags=(f"bc_rt_{kind}",), nontrivial=n > 0))
+        for kind in KINDS:
+            g = bytearray(gen.rand_bytes(rng, rng.choice((0, 1, 2, 5, 9, 30, 200))))
+            style = rng.randrange(3)
+            for i in range(len(g)):
+                if style == 1 and rng.random() < 0.75:
+                    g[i] = 0
+                elif style == 2 and rng.random() < 0.75:
+                    g[i] = 0xff
+            if len(g) >= 5 and rng.random() < 0.5:
+                g[1] = rng.randrange(len(g)); g[2] = 0; g[3] = 0
+                if rng.random() < 0.5:
+                    g[0] = (rng.randrange(len(g) // 4 + 1) * 4) & 255
+            reqs = rand_ops(rng, rng.randint(0, 60), 0.5, 2, 0 if kind.startswith("bits") else 1)
+            legacy = 1 if kind in ("rans", "folded", "bits1") and rng.random() < 0.3 else 0
+            cases.append(Case(f"bc_dec {kind} {legacy} {gen.hexs(bytes(g))} {reqs_str(reqs)}", flavour="asan",
+                              tags=(f"bc_dec_garbage_{kind}",)))
+    # decoders on damaged encoder output (both sides damage their own, identical, encoder output)
+    for c in range(700 if thorough else 140):
+        kind = KINDS[c % len(KINDS)]
+        bitmode = kind.startswith("bits")
+        ops = rand_ops(rng, rng.choice((5, 40, 300)), rng.choice(biases), 1 if bitmode else rng.randrange(3), 0 if bitmode else 1)
+        more = ops + rand_ops(rng, 40, 0.5, 2, 0 if bitmode else 1)
+        what = rng.choice(("trunc", "flip", "flip", "set"))
+        legacy = 1 if kind in ("rans", "folded", "bits1") and rng.random() < 0.3 else 0
+        cases.append(Case(f"bc_dmg {kind} {ops_str(ops)} {what} {rng.getrandbits(24)} {rng.getrandbits(16)} {legacy} {reqs_str(more)}",
+                          flavour="asan", tags=(f"bc_dmg_{what}",)))
+    # exhaustive: every rABS final state through ans_write_end / ans_read_init (the whole finite domain)
+    def tail_oracle(hout, case):
+        t = hout.split()
+        if len(t) != 3 or int(t[1]) != 0:
+            return ("ans-state-tail", f"`{case.op}`: {t[1] if len(t) == 3 else '?'} of {t[2] if len(t) == 3 else '?'} rABS states are not restored by ans_write_end/ans_read_init")
+        return None
+    step = 1 << 16
+    for lo in range(4096, 4096 * 256, step):
+        cases.append(Case(f"ans_tail_sweep {lo} {min(lo + step, 4096 * 256)}", oracle=tail_oracle, tags=("ans_tail_exhaustive",)))
+    # histories: one encoder object and one decoder object reused for two streams
+    for c in range(200 if thorough else 50):
+        kind = KINDS[c % 5]
+        o1 = rand_ops(rng, rng.choice((1, 10, 200)), rng.choice(biases), rng.randrange(3), 1)
+        o2 = rand_ops(rng, rng.choice((1, 10, 200)), rng.choice(biases), rng.randrange(3), 1)
+        def reuse_oracle(hout, case, kind=kind, o1=o1, o2=o2):
+            parts = hout.split(" | ")
+            if len(parts) != 2:
+                return ("bitcoder-reuse", f"`{case.op[:200]}` -> {hout[:100]}")
+            for part, ops in zip(parts, (o1, o2)):
+                v = rt_oracle(kind, ops)(part, case)
+                if v:
+                    return ("bitcoder-reuse", "reused encoder/decoder objects: " + v[1])
+            return None
+        cases.append(Case(f"bc_reuse {kind} {ops_str(o1)} {ops_str(o2)}", flavour="asan", oracle=reuse_oracle,
+                          tags=(f"bc_reuse_{kind}",)))
+    cases_extra = cases
     cases = []
     # encoder: model bytes == implementation bytes
     for w in (8, 16, 32, 64):
@@ -52,7 +177,7 @@ def generate(rng, tier):
         else:
             b = gen.rand_bytes(rng, k)
         cases.append(Case(f"varint_dec {w} {sg} {gen.hexs(b)}", tags=(f"varint_dec_{w}",)))
-    return cases
+    return cases + cases_extra
 
 
 def replay_cases(lines):
